@@ -2,6 +2,9 @@ use wac_graph::types::{ItemKind, Package, Types};
 
 pub fn run(args: &[String]) {
     let which = args.first().map(|s| s.as_str()).unwrap_or("uses");
+    if which == "deps" {
+        return dep_probe();
+    }
     if which == "bytes-case" {
         let tier = mc_core::Tier::Quick;
         let all = crate::c14_bytes::seeds(tier);
@@ -23,6 +26,7 @@ pub fn run(args: &[String]) {
         let u = match args[1].as_str() {
             "C02" => crate::c02::universe("C02", mc_core::Tier::Quick),
             "C03" => crate::c03::universe("C03", mc_core::Tier::Quick),
+            "C03dep" => crate::c03::universe_dep("C03", mc_core::Tier::Quick),
             _ => crate::c06::universe("C06", mc_core::Tier::Quick),
         };
         let st = crate::e1::rebuild(&u, &ops).expect("history replays");
@@ -31,6 +35,7 @@ pub fn run(args: &[String]) {
             if !define {
                 println!("{}", wasmprinter::print_bytes(&b).unwrap());
             }
+            println!("imports(): {:?}", st.real.imports().map(|(n, _, _)| n.to_string()).collect::<Vec<_>>());
             let d = mc_core::e2::decode(&b).unwrap();
             println!("define={define}\n exports {:?}\n aliases {:?}\n names {:?}", d.exports, d.aliases, d.names);
         }
@@ -56,5 +61,17 @@ pub fn run(args: &[String]) {
                 }
             }
         }
+    }
+}
+
+pub fn dep_probe() {
+    for spec in crate::c03::lib_dep() {
+        println!("== {} {:?}", spec.name, spec.version);
+        let names: Vec<String> = spec.imports.iter().map(|(n, _)| n.clone()).collect();
+        let (m, d, _) = mc_core::e2::import_structure(&spec.to_bytes(), &names).unwrap();
+        for n in &names {
+            println!("  import {n}: members {:?} deps {:?}", m.get(n), d.get(n));
+        }
+        println!("  exports {:?}", spec.exports.iter().map(|(n, _)| n).collect::<Vec<_>>());
     }
 }
